@@ -250,8 +250,9 @@ Proof.
   apply node_eqb_eq in H2, H4, H7. apply oexn_eqb_eq in H3, H6. apply res_eqb_is_ok in H1.
   apply Bool.eqb_prop in H5.
   rewrite H2, E2. rewrite H4, E3. unfold holds_C17.
-  match goal with |- _ = holds_core _ (fill_call ?k') _ _ _ _ _ _ _ _ =>
-    rewrite (fill_call_inputs k k') by reflexivity end.
+  match goal with |- _ = holds_core _ (fill_call (selected_set ?k')) _ _ _ _ _ _ _ _ =>
+    rewrite (fill_call_inputs (selected_set k) (selected_set k'))
+      by (unfold selected_set; simpl; destruct (dedup_jobs [] (c_jobs (k_call k)) (k_xjobs k)); reflexivity) end.
   simpl.
   rewrite <- H1, <- H3, <- H5, <- H6, <- H7, <- H4, <- H2. reflexivity.
 Qed.
